@@ -276,11 +276,15 @@ func c13CountFloats(v *pgVal) int {
 }
 
 func genC13Proto(r *rng, n int) {
+	if os.Getenv("C13_ONLY_HUGE") != "" {
+		genC13ProtoSizes(r.fork(), 4, false)
+		return
+	}
 	// widened classes (c13_wide.go): payload sizes around the varint-width boundaries of length prefixes, long strings
 	thorough := n >= 5000
 	nSz, nStr := 16, 10
 	if thorough {
-		nSz, nStr = 300, 40
+		nSz, nStr = 120, 40 // fixed counts: the widened classes do not scale with the budget
 	}
 	m1, h1 := genC13ProtoSizes(r.fork(), nSz, thorough)
 	if h1 {
@@ -292,7 +296,7 @@ func genC13Proto(r *rng, n int) {
 	}
 	n -= m1 + m2
 	optsPool := []pgOpts{{MaxMsgs: 4, MaxFields: 8, MaxDepth: 3}, {MaxMsgs: 3, MaxFields: 6, MaxDepth: 4}, {MaxMsgs: 5, MaxFields: 10, MaxDepth: 2}, {MaxMsgs: 2, MaxFields: 5, MaxDepth: 5}}
-	made, compileErr, encodeErr, overrun, unpackedForm, tooHeavy := 0, 0, 0, 0, 0, 0
+	made, compileErr, encodeErr, overrun, unpackedForm, tooHeavy, batches := 0, 0, 0, 0, 0, 0, 0
 	for made < n {
 		s := genProtoSchema(r.fork(), optsPool[r.intn(len(optsPool))])
 		unpacked := map[*pgField]bool{}
@@ -317,7 +321,11 @@ func genC13Proto(r *rng, n int) {
 		}
 		sf := c08SchemaFields(s, unpacked)
 		per := 4 + r.intn(8)
-		batchMode := r.chance(35) // retention mode: each leg for the whole batch (DoInto, separate buffers), results read afterwards
+		batchMode := r.chance(35) && batches < 300 // retention mode (at most a few hundred schemas, whatever the budget)
+		if batchMode {
+			batches++
+		}
+		// retention mode: each leg for the whole batch (DoInto, separate buffers), results read afterwards
 		var batch [][]byte
 		bd1, bd2 := r.chance(25), r.chance(25)
 		flush := func() {
